@@ -6,6 +6,7 @@ package harness
 import (
 	"math"
 	"math/rand"
+	"sync"
 )
 
 var fewNamed = []string{"MyInt8", "MyUint16", "MyInt", "MyFloat32", "MyFloat64", "MyUintptr"}
@@ -564,7 +565,58 @@ func driveAlloc(s *shardSet, rng *rand.Rand, thorough bool) ([]string, map[strin
 			w.SetSample(old, rng.Intn(w.Views[old].Len()), w.NextStamp())
 		}
 	}
+	driveAllocExtra(s, rng)
 	return types, nil
+}
+
+// two DIFFERENT function-local types with the same name (their reflect.Type.String() is identical)
+func localSample16(a [3]int) View {
+	type Sample int16
+	return NewViewOf[Sample]("Sample", allocator(a[0], a[1], a[2]))
+}
+func localSample64(a [3]int) View {
+	type Sample int64
+	return NewViewOf[Sample]("Sample", allocator(a[0], a[1], a[2]))
+}
+func localSampleF32(a [3]int) View {
+	type Sample float32
+	return NewViewOf[Sample]("Sample", allocator(a[0], a[1], a[2]))
+}
+
+func driveAllocExtra(s *shardSet, rng *rand.Rand) {
+	w := s.Next()
+	w.Reset()
+	for rep := 0; rep < 2; rep++ {
+		sh := [3]int{1 + rng.Intn(3), 1, 2}
+		w.AllocWith("Sample", "int16", sh[0], sh[1], sh[2], func() View { return localSample16(sh) })
+		w.AllocWith("Sample", "int64", sh[0], sh[1], sh[2], func() View { return localSample64(sh) })
+		w.AllocWith("Sample", "float32", sh[0], sh[1], sh[2], func() View { return localSampleF32(sh) })
+	}
+	// many small buffers of one type allocated by several goroutines at once: each goroutine stamps its own buffers
+	// and keeps re-reading them (every event projects all of the goroutine's live views)
+	var wg sync.WaitGroup
+	for g := 0; g < len(s.ws); g++ {
+		wg.Add(1)
+		go func(g int) {
+			defer wg.Done()
+			w := s.ws[g]
+			r := rand.New(rand.NewSource(int64(g) + 77))
+			for t := 0; t < 3; t++ {
+				w.Reset()
+				for i := 0; i < 40; i++ {
+					c := 1 + r.Intn(4)
+					k := 1 + r.Intn(64/c/2+1)
+					w.Alloc("int32", c, k, k)
+					v := len(w.Views) - 1
+					w.Write(v, "int32", w.stamps(c*k))
+					if len(w.Views) > 6 {
+						w.Drop(r.Intn(len(w.Views)))
+					}
+				}
+			}
+		}(g)
+	}
+	wg.Wait()
 }
 
 func init() {
